@@ -153,6 +153,17 @@ def run(cx):
             # the vector is (through into_iter / collect adapters only) the BTreeSet created in this function
             if pr[0] == "call" and re.search(r"BTreeSet::<T>::new$|BTreeSet::<T, A>::new", pr[2]):
                 ok = True
+            elif pr[0] == "call" and pr[2] in fb.fns:
+                # a private helper that turns the set into the vector: its result must come from its BTreeSet
+                # parameter by order-preserving adapters, and the argument must be the set created here
+                h = fb.fns[pr[2]]
+                hp = samesrc.producer(h, 0)
+                call = g.blocks[pr[1]].term
+                if hp[0] == "param" and "BTreeSet<" in h.local_ty(hp[1]) and op_place(call.args[hp[1] - 1]) is not None:
+                    pr2 = samesrc.producer(g, op_place(call.args[hp[1] - 1]).local)
+                    if pr2[0] == "call" and re.search(r"BTreeSet::<T>::new$|BTreeSet::<T, A>::new", pr2[2]):
+                        ok = True
+                        pr = pr2
             why = "it derives from %s" % (pr[2].split("::")[-2:] if pr[0] == "call" else pr[:2],)
             cx.ob("R14.sorted-diagnostics", "%s|err#%d" % (root.id, n), ok,
                   "the diagnostics returned by validate_entire_schema are not collected from the sorted, de-duplicated "
